@@ -19,6 +19,7 @@ import (
 	"time"
 	"unsafe"
 
+	"github.com/DATA-DOG/go-sqlmock"
 	"github.com/alicebob/miniredis/v2"
 	"github.com/alicebob/miniredis/v2/server"
 	"github.com/gotid/god/internal/verifdrv"
@@ -48,6 +49,7 @@ type verifOp struct {
 	D    bool    `json:"d"`
 	Gi   int     `json:"gi"`
 	TTL  int     `json:"ttl"`
+	Via  string  `json:"via"` // how the query callbacks read the database: "" | conn | stmt | tx | txstmt
 }
 
 type verifCase struct {
@@ -61,9 +63,90 @@ type verifCase struct {
 }
 
 type verifRow struct {
-	ID  int `json:"id"`
-	Ix  int `json:"ix"`
-	Val int `json:"val"`
+	ID  int `json:"id" db:"id"`
+	Ix  int `json:"ix" db:"ix"`
+	Val int `json:"val" db:"val"`
+}
+
+// ---- the database behind the query callbacks: a Go map, read directly ("") or through the real sqlx session
+// kinds over sqlmock: "conn" Conn.QueryRowCtx, "stmt" Conn.PrepareCtx + StmtSession.QueryRowCtx, "tx"
+// Session.QueryRowCtx inside Conn.TransactCtx, "txstmt" Session.PrepareCtx + QueryRowCtx inside TransactCtx.
+var errVerifDB = errors.New("verif db failure")
+
+type verifSQL struct {
+	db   *sql.DB
+	mock sqlmock.Sqlmock
+	conn sqlx.Conn
+}
+
+func newVerifSQL() *verifSQL {
+	db, mock, err := sqlmock.New()
+	if err != nil {
+		panic(err)
+	}
+	mock.MatchExpectationsInOrder(false)
+	return &verifSQL{db: db, mock: mock, conn: sqlx.NewConnFromDB(db)}
+}
+
+// queryRow reads one row (found / missing / failing database) into v through the session kind via.
+func (q *verifSQL) queryRow(ctx context.Context, via string, v *verifRow, arg int, row verifRow, found, fail bool) error {
+	const stmt = "select id, ix, val from t where k = ?"
+	cols := []string{"id", "ix", "val"}
+	answer := func(eq *sqlmock.ExpectedQuery) {
+		switch {
+		case fail:
+			eq.WillReturnError(errVerifDB)
+		case found:
+			eq.WillReturnRows(sqlmock.NewRows(cols).AddRow(row.ID, row.Ix, row.Val))
+		default:
+			eq.WillReturnRows(sqlmock.NewRows(cols))
+		}
+	}
+	switch via {
+	case "conn":
+		answer(q.mock.ExpectQuery("select id").WithArgs(arg))
+		return q.conn.QueryRowCtx(ctx, v, stmt, arg)
+	case "stmt":
+		answer(q.mock.ExpectPrepare("select id").ExpectQuery().WithArgs(arg))
+		st, err := q.conn.PrepareCtx(ctx, stmt)
+		if err != nil {
+			return err
+		}
+		defer st.Close()
+		return st.QueryRowCtx(ctx, v, arg)
+	case "tx", "txstmt":
+		q.mock.ExpectBegin()
+		if via == "tx" {
+			answer(q.mock.ExpectQuery("select id").WithArgs(arg))
+		} else {
+			answer(q.mock.ExpectPrepare("select id").ExpectQuery().WithArgs(arg))
+		}
+		if found && !fail {
+			q.mock.ExpectCommit()
+		} else {
+			q.mock.ExpectRollback()
+		}
+		return q.conn.TransactCtx(ctx, func(ctx context.Context, s sqlx.Session) error {
+			if via == "tx" {
+				return s.QueryRowCtx(ctx, v, stmt, arg)
+			}
+			st, err := s.PrepareCtx(ctx, stmt)
+			if err != nil {
+				return err
+			}
+			defer st.Close()
+			return st.QueryRowCtx(ctx, v, arg)
+		})
+	default:
+		if fail {
+			return errVerifDB
+		}
+		if !found {
+			return sqlx.ErrNotFound
+		}
+		*v = row
+		return nil
+	}
 }
 
 const (
@@ -158,7 +241,7 @@ func verifErr(err error) string {
 	switch {
 	case err == nil:
 		return "ok"
-	case errors.Is(err, sql.ErrNoRows):
+	case err == sql.ErrNoRows: // the error itself, as callers compare it
 		return "nf"
 	case errors.Is(err, context.Canceled):
 		return "ctx"
@@ -166,6 +249,8 @@ func verifErr(err error) string {
 		return "cerr"
 	case strings.Contains(err.Error(), "verif exec failure"):
 		return "execerr"
+	case errors.Is(err, errVerifDB):
+		return "dberr"
 	default:
 		return "err:" + err.Error()
 	}
@@ -189,7 +274,9 @@ func verifRunCase(c verifCase) (any, bool) {
 	src := &verifSource{}
 	node := cache.NewNode(redis.New(verifSrv.Addr()), singleFlights, stats, sql.ErrNoRows,
 		cache.WithExpire(time.Duration(c.Expire)*time.Second), cache.WithNotFoundExpire(time.Duration(c.NfExpire)*time.Second))
-	cc := NewConnWithCache(nil, verifScripted(node, src))
+	vsql := newVerifSQL()
+	defer vsql.db.Close()
+	cc := NewConnWithCache(vsql.conn, verifScripted(node, src))
 
 	db := map[int]verifRow{}
 	dbq := 0
@@ -221,16 +308,12 @@ func verifRunCase(c verifCase) (any, bool) {
 			rctx = cctx
 		}
 		switch op.Op {
-		case "qrow", "qrowc":
+		case "qrow", "qrowc", "qrowe":
 			var row verifRow
 			err := cc.QueryRowCtx(rctx, &row, keyName([]any{"pk", float64(op.ID)}), func(ctx context.Context, conn sqlx.Conn, v any) error {
 				dbq++
 				got, ok := db[op.ID]
-				if !ok {
-					return sqlx.ErrNotFound
-				}
-				*v.(*verifRow) = got
-				return nil
+				return vsql.queryRow(ctx, op.Via, v.(*verifRow), op.ID, got, ok, op.Op == "qrowe")
 			})
 			o["r"] = verifErr(err)
 			if err == nil {
@@ -242,22 +325,22 @@ func verifRunCase(c verifCase) (any, bool) {
 			err := cc.QueryRowIndexCtx(rctx, &row, keyName([]any{"ix", float64(op.Ix)}), keyer,
 				func(ctx context.Context, conn sqlx.Conn, v any) (any, error) {
 					dbq++
-					for id := 0; id < 64; id++ { // smallest id first
-						if got, ok := db[id]; ok && got.Ix == op.Ix {
-							*v.(*verifRow) = got
-							return id, nil
+					var got verifRow
+					found := false
+					for id := 0; id < 64 && !found; id++ { // smallest id first
+						if r, ok := db[id]; ok && r.Ix == op.Ix {
+							got, found = r, true
 						}
 					}
-					return nil, sqlx.ErrNotFound
+					if err := vsql.queryRow(ctx, op.Via, v.(*verifRow), op.Ix, got, found, false); err != nil {
+						return nil, err
+					}
+					return got.ID, nil
 				},
 				func(ctx context.Context, conn sqlx.Conn, v, primary any) error {
 					dbq++
 					got, ok := db[toID(primary)]
-					if !ok {
-						return sqlx.ErrNotFound
-					}
-					*v.(*verifRow) = got
-					return nil
+					return vsql.queryRow(ctx, op.Via, v.(*verifRow), toID(primary), got, ok, false)
 				})
 			o["r"] = verifErr(err)
 			if err == nil {
@@ -379,6 +462,9 @@ type verifThreadOp struct {
 	Ga  int  `json:"ga"`
 	Gb  int  `json:"gb"`
 	Gc  int  `json:"gc"`
+	S   bool `json:"s"` // SetCacheCtx(key, row Val)
+	// further calls made by the same goroutine immediately after this one returns (no gates)
+	Then []verifThreadOp `json:"then"`
 }
 
 type verifThread struct {
@@ -391,6 +477,7 @@ type verifThread struct {
 	started   int32
 	done      int32
 	parked    int32 // gate the thread is parked at (0: none)
+	curGc     int32 // gate of the Redis command of the call in progress
 	parkedCtx int32 // that wait also ends when the thread's context is cancelled
 	inDoEx    int32
 	fnActive  int32
@@ -524,7 +611,7 @@ func (e *verifConcEnv) hook(cmd string, args []string) {
 		if k < 0 {
 			return
 		}
-		e.pass(t, t.op.Gc, nil)
+		e.pass(t, int(atomic.LoadInt32(&t.curGc)), nil)
 		v := -1
 		if len(args) > 1 {
 			if args[1] == "*" {
@@ -546,7 +633,7 @@ func (e *verifConcEnv) hook(cmd string, args []string) {
 			continue
 		}
 		if first {
-			e.pass(t, t.op.Gc, nil)
+			e.pass(t, int(atomic.LoadInt32(&t.curGc)), nil)
 			first = false
 		}
 		e.log(3, a, k, 0)
@@ -687,6 +774,14 @@ func (e *verifConcEnv) quiesce() {
 
 func verifRunConc(c verifCase) any {
 	verifOnce.Do(verifSetup)
+	for _, t := range c.Threads {
+		if len(t.Then) > 0 {
+			// one P: when the executing call ends, its waiters become runnable but run only once this goroutine
+			// blocks, i.e. after it has gone on to its next calls
+			defer runtime.GOMAXPROCS(runtime.GOMAXPROCS(1))
+			break
+		}
+	}
 	verifCaseNo++
 	e := &verifConcEnv{prefix: fmt.Sprintf("k%d:", verifCaseNo), gates: map[int]chan struct{}{}, open: map[int]bool{},
 		acting: -1, db: map[int]int{}, inflight: map[int]int{}, maxfl: map[int]int{}}
@@ -719,62 +814,74 @@ func verifRunConc(c verifCase) any {
 			if atomic.LoadInt32(&t.started) == 0 {
 				return // never scheduled
 			}
-			k := t.op.Key
-			if t.op.W {
-				_, err := cc.ExecCtx(t.ctx, func(ctx context.Context, conn sqlx.Conn) (sql.Result, error) {
-					e.pass(t, t.op.Ga, nil)
-					e.mu.Lock()
-					if t.op.Val == 0 {
-						delete(e.db, k)
-					} else {
-						e.db[k] = t.op.Val
-					}
-					e.mu.Unlock()
-					e.log(4, t.id, k, t.op.Val)
-					e.pass(t, t.op.Gb, nil)
-					return nil, nil
-				}, keyName(k))
-				t.res = verifErr(err)
-			} else {
-				var row verifRow
-				err := cc.QueryRowCtx(t.ctx, &row, keyName(k), func(ctx context.Context, conn sqlx.Conn, v any) error {
-					e.mu.Lock()
-					e.inflight[k]++
-					if e.inflight[k] > e.maxfl[k] {
-						e.maxfl[k] = e.inflight[k]
-					}
-					e.mu.Unlock()
-					e.log(0, t.id, k, 0)
-					defer func() {
+			runOp := func(op verifThreadOp) any {
+				atomic.StoreInt32(&t.curGc, int32(op.Gc))
+				k := op.Key
+				if op.S {
+					return verifErr(cc.SetCacheCtx(t.ctx, keyName(k), verifRow{ID: k, Ix: 0, Val: op.Val}))
+				}
+				if op.W {
+					_, err := cc.ExecCtx(t.ctx, func(ctx context.Context, conn sqlx.Conn) (sql.Result, error) {
+						e.pass(t, op.Ga, nil)
 						e.mu.Lock()
-						e.inflight[k]--
+						if op.Val == 0 {
+							delete(e.db, k)
+						} else {
+							e.db[k] = op.Val
+						}
 						e.mu.Unlock()
-						e.log(1, t.id, k, 0)
-					}()
-					if !e.pass(t, t.op.Ga, ctx) {
-						return ctx.Err()
+						e.log(4, t.id, k, op.Val)
+						e.pass(t, op.Gb, nil)
+						return nil, nil
+					}, keyName(k))
+					return verifErr(err)
+				}
+				{
+					var row verifRow
+					err := cc.QueryRowCtx(t.ctx, &row, keyName(k), func(ctx context.Context, conn sqlx.Conn, v any) error {
+						e.mu.Lock()
+						e.inflight[k]++
+						if e.inflight[k] > e.maxfl[k] {
+							e.maxfl[k] = e.inflight[k]
+						}
+						e.mu.Unlock()
+						e.log(0, t.id, k, 0)
+						defer func() {
+							e.mu.Lock()
+							e.inflight[k]--
+							e.mu.Unlock()
+							e.log(1, t.id, k, 0)
+						}()
+						if !e.pass(t, op.Ga, ctx) {
+							return ctx.Err()
+						}
+						e.mu.Lock()
+						val, ok := e.db[k]
+						e.mu.Unlock()
+						if !e.pass(t, op.Gb, ctx) {
+							return ctx.Err()
+						}
+						if !ok {
+							return sqlx.ErrNotFound
+						}
+						*v.(*verifRow) = verifRow{ID: k, Ix: 0, Val: val}
+						return nil
+					})
+					switch {
+					case err == nil:
+						return []any{"row", row.Val, row.ID}
+					case errors.Is(err, context.Canceled):
+						return "ctx"
+					default:
+						return verifErr(err)
 					}
-					e.mu.Lock()
-					val, ok := e.db[k]
-					e.mu.Unlock()
-					if !e.pass(t, t.op.Gb, ctx) {
-						return ctx.Err()
-					}
-					if !ok {
-						return sqlx.ErrNotFound
-					}
-					*v.(*verifRow) = verifRow{ID: k, Ix: 0, Val: val}
-					return nil
-				})
-				switch {
-				case err == nil:
-					t.res = []any{"row", row.Val}
-				case errors.Is(err, context.Canceled):
-					t.res = "ctx"
-				default:
-					t.res = verifErr(err)
 				}
 			}
+			results := []any{runOp(t.op)}
+			for _, f := range t.op.Then {
+				results = append(results, runOp(f)) // right away, on this goroutine
+			}
+			t.res = results
 			e.log(5, t.id, 0, 0)
 			atomic.StoreInt32(&t.done, 1)
 		}()
